@@ -45,7 +45,7 @@ fn main() {
     let idxa = by_source(&ua);
     ctx.run_slice(Slice::new(format!("assoc-spiders-and-operations[{} diagrams, boundaries <=2]", ua.len()), ua.len() as u64, |i, loc| check_assoc_from::<B>(&ua, &idxa, i as usize, loc)).heavy());
     // associativity across a permutation of a long boundary: (f;p);g vs f;(p;g) on structured gluing pairs
-    let gp = ohmc::props::structured::gluing_pairs(if quick { 10 } else { 20 }, if quick { 5 } else { 6 });
+    let gp = ohmc::props::structured::gluing_pairs(if quick { 10 } else { 20 }, if quick { 7 } else { 8 });
     ctx.run_slice(Slice::new(format!("assoc-structured-gluing[{} pairs x 2 permutations]", gp.len()), gp.len() as u64 * 2, |i, loc| {
         let (_, f, g) = &gp[(i / 2) as usize];
         let k = f.t.len();
